@@ -165,5 +165,8 @@ Definition go_text : text_ops :=
 
 (** the instantiated entry points *)
 Definition search (msgs : list msg) (criteria : str) : option (list Z) :=
-  evaluate_search_criteria go_text msgs criteria.
+  option_map (map m_seq) (evaluate_search_criteria go_text msgs criteria).
+Definition uid_search (msgs : list msg) (criteria : str) : option (list Z) :=
+  option_map (map m_uid) (evaluate_search_criteria go_text msgs criteria).
 Definition search_cmd (parts : list str) (msgs : list msg) : reply := handle_search go_text parts msgs.
+Definition uid_search_cmd (parts : list str) (msgs : list msg) : reply := handle_uid_search go_text parts msgs.
